@@ -56,6 +56,16 @@ pub fn exec(op: &str, a: &Value) -> Option<Value> {
             }, |v| int(*v))
         }
         "CZ.offset" => run(|| zdt(a)?.offset(), |s| p_str(s)),
+        // many offset reads in a tight loop over a few (zone, instant) pairs: a pure function of the arguments, so any element that
+        // differs from the serial answer shows state shared outside the provider lock
+        "CZ.offsetLoop" => run(|| {
+            let items = a["items"].as_array().expect("HARNESS items");
+            let zs: Vec<ZonedDateTime> = items.iter().map(zdt).collect::<TemporalResult<Vec<_>>>()?;
+            let reps = a["reps"].as_u64().unwrap_or(100) as usize;
+            let mut out = Vec::with_capacity(reps);
+            for i in 0..reps { out.push(zs[i % zs.len()].offset_nanoseconds()? / 1_000_000_000); }
+            Ok(out)
+        }, |v| Value::Array(v.iter().map(|x| int(*x)).collect())),
         "CZ.startOfDay" => run(|| zdt(a)?.start_of_day(), p_zdt),
         "CZ.toPlainDateTime" => run(|| zdt(a)?.to_plain_datetime(), p_datetime),
         "CZ.toString" => run(|| zdt(a)?.to_ixdtf_string(DisplayOffset::Auto, DisplayTimeZone::Auto, DisplayCalendar::Auto, ToStringRoundingOptions::default()), |s| p_str(s)),
